@@ -339,7 +339,11 @@ theorem monthText_roundtrip (cu : Culture) (used : Nat) (get : Getter) (b : Buck
     formatStep cu used get buf (.monthText count) = .ok (buf ++ a) ∧
     parseStep cu (a ++ tail) b (.monthText count) = .ok (some (b.set .monthText (K : Int), tail)) := by
   constructor
-  · simp only [formatStep, hK, pyIndex_nat _ K a ha]
+  · have hlt : ¬ ((K : Int) ≥ ((monthTable cu count (genitiveOf used)).length : Int)) := by
+      rcases Nat.lt_or_ge K (monthTable cu count (genitiveOf used)).length with h' | h'
+      · omega
+      · rw [List.getElem?_eq_none h'] at ha; cases ha
+    simp only [formatStep, hK, if_neg hlt, pyIndex_nat _ K a ha]
   · have hmem : (monthTable cu count true)[K]? = some a ∨
         ∃ t, monthSecond cu count = some t ∧ t[K]? = some a := by
       cases hg : genitiveOf used with
@@ -670,7 +674,7 @@ theorem era_roundtrip (cu : Culture) (used : Nat) (get : Getter) (b : Bucket) (b
     (he : get .era = 0 ∨ get .era = 1) (hok : eraOK cu = true) (hs : tailSafe (eraDanger cu) tail = true) :
     formatStep cu used get buf .era = .ok (buf ++ eraPrimary cu (get .era)) ∧
     parseStep cu (eraPrimary cu (get .era) ++ tail) b .era = .ok (some (b.set .era (get .era), tail)) := by
-  refine ⟨by simp only [formatStep, eraPrimary], ?_⟩
+  refine ⟨by rcases he with e | e <;> simp [formatStep, eraPrimary, eraPrimaryOf, e], ?_⟩
   unfold eraOK at hok
   simp only [Bool.and_eq_true, decide_eq_true_eq] at hok
   obtain ⟨⟨⟨o1, o2⟩, _⟩, _⟩ := hok
@@ -694,6 +698,33 @@ theorem era_roundtrip (cu : Culture) (used : Nat) (get : Getter) (b : Bucket) (b
     | some ds =>
       rw [hq] at s2
       rw [eraScan_sound _ 1 tail _ ds hq s2]
+
+/-- the era step of a single-era calendar: the primary name of its era is written and read back -/
+theorem eraC_roundtrip (cu : Culture) (used : Nat) (get : Getter) (b : Bucket) (buf tail : Text) (cal : Nat)
+    (he : get .era = eraIdOfCal cal) (hok : eraCOK cu cal = true) (hs : tailSafe (eraCDanger cu cal) tail = true) :
+    formatStep cu used get buf (.eraC cal) = .ok (buf ++ eraPrimaryOf cu (get .era)) ∧
+    parseStep cu (eraPrimaryOf cu (get .era) ++ tail) b (.eraC cal) = .ok (some (b.set .era (get .era), tail)) := by
+  refine ⟨rfl, ?_⟩
+  unfold eraCOK at hok
+  simp only [Bool.and_eq_true, decide_eq_true_eq] at hok
+  unfold eraCDanger at hs
+  rw [he]
+  cases hq : eraScan (eraPrimaryOf cu (eraIdOfCal cal)) (eraIdOfCal cal) (eraCandsC cu cal) with
+  | none => rw [hq] at hok; cases hok.1
+  | some ds =>
+    rw [hq] at hs
+    have h1 := eraScan_sound _ (eraIdOfCal cal) tail _ ds hq hs
+    unfold eraCandsC at h1
+    have h2 := firstTagged_map_append (eraPrimaryOf cu (eraIdOfCal cal) ++ tail) (eraIdOfCal cal) [] (eraNamesOf cu (eraIdOfCal cal))
+    rw [List.append_nil] at h2
+    rw [h2] at h1
+    simp only [parseStep]
+    cases hm : firstMatchCI (eraPrimaryOf cu (eraIdOfCal cal) ++ tail) (eraNamesOf cu (eraIdOfCal cal)) with
+    | none => rw [hm] at h1; simp [firstTagged] at h1
+    | some r =>
+      rw [hm] at h1
+      simp only [Option.some.injEq, Prod.mk.injEq] at h1
+      rw [h1.2]
 
 /-! ## the calendar id -/
 
@@ -724,18 +755,71 @@ theorem calendarIds_eq : calendarIds =
      ['P', 'e', 'r', 's', 'i', 'a', 'n', ' ', 'A', 'l', 'g', 'o', 'r', 'i', 't', 'h', 'm', 'i', 'c'],
      ['U', 'm', ' ', 'A', 'l', ' ', 'Q', 'u', 'r', 'a']] := by decide
 
-/-- the calendar step on an ISO value: `ISO` is written and read back (no earlier id starts with `I`) -/
-theorem calendar_roundtrip (cu : Culture) (used : Nat) (get : Getter) (b : Bucket) (buf tail : Text) :
-    formatStep cu used get buf .calendar = .ok (buf ++ isoId) ∧
-    parseStep cu (isoId ++ tail) b .calendar = .ok (some (b, tail)) := by
-  refine ⟨rfl, ?_⟩
-  have hp : parseCalendarId (isoId ++ tail) calendarIds = some (isoId, tail) := by
-    rw [calendarIds_eq]
-    show parseCalendarId ('I' :: 'S' :: 'O' :: tail) _ = _
+/-- some position within the common length of `j` and `i` differs -/
+def diverge : Text → Text → Bool
+  | x :: xs, y :: ys => decide (x ≠ y) || diverge xs ys
+  | _, _ => false
+
+theorem matchText_diverge : ∀ (j i tail : Text), diverge j i = true → matchText j (i ++ tail) = none := by
+  intro j
+  induction j with
+  | nil => intro i tail h; cases i <;> simp [diverge] at h
+  | cons x xs ih =>
+    intro i tail h
+    cases i with
+    | nil => simp [diverge] at h
+    | cons y ys =>
+      simp only [diverge, Bool.or_eq_true, decide_eq_true_eq] at h
+      rcases h with h | h
+      · exact matchText_head_ne x y xs (ys ++ tail) h
+      · have := ih ys tail h
+        unfold matchText at this ⊢
+        simp only [List.cons_append, List.length_cons, List.take_succ_cons, List.cons.injEq]
+        by_cases hq : List.take xs.length (ys ++ tail) = xs
+        · rw [if_pos hq] at this; cases this
+        · rw [if_neg (fun hh => hq hh.2)]
+
+/-- an id that every other id of the list diverges from is the one the parse action finds -/
+theorem parseCalendarId_of_diverge (i tail : Text) : ∀ ids : List Text, i ∈ ids →
+    (∀ j ∈ ids, j ≠ i → diverge j i = true) → parseCalendarId (i ++ tail) ids = some (i, tail) := by
+  intro ids
+  induction ids with
+  | nil => intro h; cases h
+  | cons x xs ih =>
+    intro hm hd
     simp only [parseCalendarId]
-    repeat rw [matchText_head_ne _ _ _ _ (by decide)]
-    have : matchText ['I', 'S', 'O'] ('I' :: 'S' :: 'O' :: tail) = some tail := by simp [matchText]
-    simp [this, isoId]
-  simp only [parseStep, hp, if_true]
+    by_cases hx : x = i
+    · subst hx
+      have : matchText x (x ++ tail) = some tail := by unfold matchText; simp
+      rw [this]
+    · rw [matchText_diverge x i tail (hd x (by simp) hx)]
+      have hm' : i ∈ xs := by
+        rcases List.mem_cons.mp hm with h | h
+        · exact absurd h.symm hx
+        · exact h
+      exact ih hm' (fun j hj hne => hd j (by simp [hj]) hne)
+
+/-- every calendar id is found by the parse action (the ids are prefix-free in both directions) and names its ordinal -/
+def calIdOK (k : Nat) : Bool :=
+  let i := idOfOrd (k : Int)
+  calendarIds.contains i && calendarIds.all (fun j => j == i || diverge j i) && (ordOfId i == (k : Int))
+
+theorem calIdOK_all : ∀ k : Fin 19, calIdOK k.val = true := by decide +kernel
+
+/-- the calendar step: the id of the value's calendar is written and read back as its ordinal -/
+theorem calendar_roundtrip (cu : Culture) (used : Nat) (get : Getter) (b : Bucket) (buf tail : Text)
+    (hk : 0 ≤ get .calendar ∧ get .calendar ≤ 18) :
+    formatStep cu used get buf .calendar = .ok (buf ++ idOfOrd (get .calendar)) ∧
+    parseStep cu (idOfOrd (get .calendar) ++ tail) b .calendar = .ok (some (b.set .calendar (get .calendar), tail)) := by
+  refine ⟨rfl, ?_⟩
+  obtain ⟨k, hkk, hlt⟩ : ∃ k : Nat, get .calendar = (k : Int) ∧ k < 19 := ⟨(get .calendar).toNat, by omega, by omega⟩
+  have hok := calIdOK_all ⟨k, hlt⟩
+  simp only [calIdOK, Bool.and_eq_true, List.contains_eq_mem, decide_eq_true_eq, List.all_eq_true, Bool.or_eq_true,
+    beq_iff_eq] at hok
+  obtain ⟨⟨hm, hd⟩, ho⟩ := hok
+  rw [hkk]
+  have hp := parseCalendarId_of_diverge (idOfOrd (k : Int)) tail calendarIds hm
+    (fun j hj hne => by rcases hd j hj with h | h; exact absurd h hne; exact h)
+  simp only [parseStep, hp, ho]
 
 end Pyoda.C07
